@@ -35,6 +35,9 @@ pub struct GenerationCache {
     events_hash: String,
     /// Combined hash for quick comparison
     combined_hash: String,
+    /// Names of the files written by the generation this record vouches for
+    #[serde(default)]
+    files: Vec<String>,
 }
 
 impl GenerationCache {
@@ -73,7 +76,14 @@ impl GenerationCache {
             config_hash,
             events_hash,
             combined_hash,
+            files: Vec::new(),
         })
+    }
+
+    /// Record the files written by the generation this cache vouches for
+    pub fn with_files(mut self, files: &[String]) -> Self {
+        self.files = files.to_vec();
+        self
     }
 
     /// Load cache from file
@@ -134,7 +144,16 @@ impl GenerationCache {
         let current_cache = Self::with_events(commands, structs, events, config)?;
 
         // Compare combined hashes
-        Ok(previous_cache.combined_hash != current_cache.combined_hash)
+        if previous_cache.combined_hash != current_cache.combined_hash {
+            return Ok(true);
+        }
+
+        // The record only vouches for files that are still there
+        let output_dir = output_dir.as_ref();
+        Ok(previous_cache
+            .files
+            .iter()
+            .any(|file| !output_dir.join(file).exists()))
     }
 
     /// Get the cache file path
@@ -285,6 +304,7 @@ impl GenerationCache {
             type_mappings: Option<BTreeMap<&'a str, &'a str>>,
             default_parameter_case: &'a str,
             default_field_case: &'a str,
+            visualize_deps: bool,
         }
 
         let hash_data = ConfigHashData {
@@ -299,6 +319,7 @@ impl GenerationCache {
             }),
             default_parameter_case: &config.default_parameter_case,
             default_field_case: &config.default_field_case,
+            visualize_deps: config.should_visualize_deps(),
         };
 
         let json = serde_json::to_string(&hash_data)?;
